@@ -391,6 +391,9 @@ func runRefcount(w *mon.Worker, prop string) {
 	for i := 0; i < w.Share(w.Scale(1600, 160000)); i++ {
 		w.Case("zero-value", nil, func(c *mon.Case) { rfZeroValueCase(c, prop) })
 	}
+	for i := 0; i < w.Share(w.Scale(800, 80000)); i++ {
+		w.Case("stale-released", nil, rfStaleReleasedCase)
+	}
 	mon.ClearProb()
 	if prop == "C10" {
 		// consumers depend on it too: a result obtained after the owner cancelled the root context is still delivered
@@ -1600,4 +1603,109 @@ func rfZeroValueCase(c *mon.Case, prop string) {
 		}
 	}
 	_ = prop
+}
+
+// rfStaleReleasedCase: the released() callback of a result that was dropped long ago is called late. It is documented
+// to do nothing then: the value that is current now stays resolved, is not released, and no resolver call is made.
+func rfStaleReleasedCase(c *mon.Case) {
+	r := c.Rng
+	how := r.IntN(3) // how the first result went away: 0 last reference released, 1 SetContext(new), 2 ClearContext + SetContext
+	keep := r.IntN(4) == 0 && how != 0
+	var mu sync.Mutex
+	var releasedFns []func()
+	var rels [8]atomic.Int64
+	calls := 0
+	resolver := func(ctx context.Context, released func()) (int, func(), error) {
+		mu.Lock()
+		n := calls
+		calls++
+		releasedFns = append(releasedFns, released)
+		mu.Unlock()
+		c.Rec("resolver", fmt.Sprint("call ", n), nil)
+		if n >= len(rels) {
+			<-ctx.Done()
+			return 0, nil, context.Canceled
+		}
+		return 100 + n, func() { rels[n].Add(1) }, nil
+	}
+	rc := refcount.NewRefCount[int](nil, keep, nil, nil, resolver)
+	ctx1, cancel1 := context.WithCancel(context.Background())
+	defer cancel1()
+	rc.SetContext(ctx1)
+	var last1, last2 atomic.Int64 // last value told to each reference (-1 = told gone)
+	ref1 := rc.AddRef(func(resolved bool, v int, err error) {
+		if resolved {
+			last1.Store(int64(v))
+		} else {
+			last1.Store(-1)
+		}
+	})
+	if !mon.Quiesce(5 * time.Second) {
+		c.Inconclusive("no quiescence")
+		return
+	}
+	ctx2, cancel2 := context.WithCancel(context.Background())
+	defer cancel2()
+	switch how {
+	case 0:
+		ref1.Release()
+	case 1:
+		rc.SetContext(ctx2)
+	default:
+		rc.ClearContext()
+		rc.SetContext(ctx2)
+	}
+	ref2 := rc.AddRef(func(resolved bool, v int, err error) {
+		if resolved {
+			last2.Store(int64(v))
+		} else {
+			last2.Store(-1)
+		}
+	})
+	if !mon.Quiesce(5 * time.Second) {
+		c.Inconclusive("no quiescence")
+		return
+	}
+	mu.Lock()
+	nBefore := calls
+	stale := releasedFns[0]
+	mu.Unlock()
+	cur := nBefore - 1
+	if nBefore < 2 || last2.Load() != int64(100+cur) {
+		c.Inconclusive(fmt.Sprintf("unexpected set-up: %d resolver calls, second reference told %d", nBefore, last2.Load()))
+		return
+	}
+	c.Rec("d", "late released() of the first result", nil)
+	stale()
+	c.Count("stale_released_templates", 1)
+	c.NonTrivial()
+	c.Mix(uint64(how)<<1 | uint64(map[bool]int{true: 1}[keep]))
+	if !mon.Quiesce(5 * time.Second) {
+		c.Inconclusive("no quiescence after the late released()")
+		return
+	}
+	mu.Lock()
+	nAfter := calls
+	mu.Unlock()
+	if k := rels[cur].Load(); k != 0 || nAfter != nBefore || last2.Load() != int64(100+cur) {
+		c.Violate("release", "refcount-result-dropped-without-cause", "the first result went away (%s) and result %d is current and held; a late released() of the FIRST result then released the current one %d time(s), caused %d new resolver call(s) and left the holder told %d (want 0, 0, %d)",
+			[]string{"last reference released", "SetContext(new)", "ClearContext + SetContext"}[how], 100+cur, k, nAfter-nBefore, last2.Load(), 100+cur)
+	}
+	if how != 0 {
+		ref1.Release()
+	}
+	ref2.Release()
+	rc.ClearContext()
+	if !mon.Quiesce(5 * time.Second) {
+		c.Inconclusive("no quiescence at the end")
+		return
+	}
+	mu.Lock()
+	nEnd := calls
+	mu.Unlock()
+	for i := 0; i < nEnd && i < len(rels); i++ {
+		if k := rels[i].Load(); k != 1 {
+			c.Violate("release", "refcount-release-count-final", "stale-released template: the release function of result %d has run %d times after everything was released and cleared, want once", 100+i, k)
+		}
+	}
 }
